@@ -252,6 +252,15 @@ def systematic_cases():
     cases.append(mk_case(None, False, "include outside project (absolute-looking)", raw_cond="include('//../outside.cond')\n" + HELPERS[""] + ok_t, extra_files={"../outside.cond": inc_ok}))
     cases.append(mk_case(None, False, "included file defines a task", raw_cond="include('inc.cond')\n" + HELPERS[""] + ok_t, extra_files={"inc.cond": "run_command(name='z', run='true')\n"}))
     cases.append(mk_case(None, False, "included file includes", raw_cond="include('inc.cond')\n" + HELPERS[""] + ok_t, extra_files={"inc.cond": "include('inc2.cond')\n", "inc2.cond": inc_ok}))
+    grp = "run_experiment_group(name='swept', run='true', experiments=[ExperimentInstance(name='swept-1')])\n"
+    cases.append(mk_case(None, False, "included file defines tasks through run_experiment_group()", raw_cond="include('inc.cond')\n" + HELPERS[""] + ok_t, extra_files={"inc.cond": grp}))
+    cases.append(mk_case(None, False, "included file defines tasks through run_experiment_group() [target is that task]", raw_cond="include('inc.cond')\n" + HELPERS[""] + ok_t, extra_files={"inc.cond": grp}, target="//:swept"))
+    cases.append(mk_case(None, False, "included file uses combine()", raw_cond="include('inc.cond')\n" + HELPERS[""] + ok_t, extra_files={"inc.cond": "combine(name='z', deps=[])\n"}))
+    cases.append(mk_case(None, True, "group in the COND file itself", raw_cond=HELPERS[""] + grp.replace("swept", "t").replace("t-1", "t-one")))
+    # outside the project, but in a sibling directory whose name starts with the project directory's name
+    cases.append(mk_case(None, False, "include from a sibling directory with a common name prefix", raw_cond="include('../proj-shared/defs.cond')\n" + HELPERS[""] + use, extra_files={"../proj-shared/defs.cond": inc_ok}))
+    cases.append(mk_case(None, False, "include from a sibling directory with a common name prefix (2)", raw_cond="include('//../project/defs.cond')\n" + HELPERS[""] + use, extra_files={"../project/defs.cond": inc_ok}))
+    cases.append(mk_case(None, False, "include through a symlink that leaves the project", raw_cond="include('link.cond')\n" + HELPERS[""] + use, extra_files={"../elsewhere/defs.cond": inc_ok, "@symlink:link.cond": "../elsewhere/defs.cond"}))
     cases.append(mk_case(None, False, "include(non-string)", raw_cond="include(5)\n" + HELPERS[""] + ok_t))
     cases.append(mk_case(None, False, "include of a directory", raw_cond="include('d.cond')\n" + HELPERS[""] + ok_t, extra_files={"d.cond/keep": "x"}))
     return cases
@@ -293,6 +302,11 @@ def write_files(root, case):
     os.makedirs(root, exist_ok=True)
     open(os.path.join(root, "cond_config.toml"), "w").write("disable_git = true\n")
     for rel, content in case["files"].items():
+        if rel.startswith("@symlink:"):
+            p = os.path.normpath(os.path.join(root, rel[len("@symlink:"):]))
+            os.makedirs(os.path.dirname(p), exist_ok=True)
+            os.symlink(content, p)
+            continue
         p = os.path.normpath(os.path.join(root, rel))
         os.makedirs(os.path.dirname(p), exist_ok=True)
         if isinstance(content, dict):
